@@ -6,6 +6,7 @@ import (
 	"fmt"
 	"os"
 	"sort"
+	"strings"
 )
 
 func cmdC08(c *ctx) {
@@ -39,19 +40,24 @@ func cmdC08(c *ctx) {
 			s2 := m.wgsl()
 			wNoHexFloat = false
 			if s2 != src {
-				ok2 := true
 				mod2, r2 := frontEnd(s2)
 				if mod2 != nil {
 					_, rb := backends(mod2, "main")
 					r2 = append(r2, rb...)
 				}
-				for _, r := range r2 {
-					if r.err != "" {
-						ok2 = false
+				// the first rejection disappears with the decimal spelling: it is the hexadecimal literal's; whatever the
+				// re-spelled program is still rejected for is reported as a rejection of its own
+				if errClass(r2) != errClass(res) {
+					first := out
+					if i := strings.Index(out, ";"); i >= 0 {
+						first = out[:i+1]
 					}
-				}
-				if ok2 {
-					out = " cause=hex-float-literal" + out
+					out = " cause=hex-float-literal" + first
+					for _, r := range r2 {
+						if r.err != "" {
+							out += fmt.Sprintf(" respelled %s: %s;", r.stage, r.err)
+						}
+					}
 					c.count("cause:hex-float-literal")
 				}
 			}
